@@ -227,12 +227,11 @@ Fixpoint ntfs_fallback (pos : nat) (saw_tilde : bool) (rest prefix : bytes) {str
   end.
 
 Definition is_dot_ntfs (input name short_prefix : bytes) : bool :=
-  match input with
-  | x2e :: _ =>
+  if opt_is (get_at input 0) (fun b => beqb b x2e) then
       let end_pos := (1 + length name)%nat in
       if opt_is (get_range input 1 end_pos) (fun i => eq_ic i name) then is_done_ntfs (get_from input end_pos)
       else false
-  | _ =>
+  else
       if match get_to name 6, get_to input 6 with
          | Some p, Some first6 =>
              eq_ic first6 p
@@ -241,8 +240,7 @@ Definition is_dot_ntfs (input name short_prefix : bytes) : bool :=
          | _, _ => false
          end
       then is_done_ntfs (get_from input 8)
-      else ntfs_fallback 0 false input short_prefix
-  end.
+      else ntfs_fallback 0 false input short_prefix.
 
 (* ---- component() ----------------------------------------------------------------------------- *)
 
